@@ -23,6 +23,7 @@ import re
 
 from ..capi import API
 from ..ccfg import get_ccfg
+from ..cexpr import callee
 from ..cfacts import CREL, get_cfacts
 from ..core import AnalysisError, rule
 from ..csym import feasible_paths
@@ -148,6 +149,7 @@ class Own:
                                     f"arbitrary Python code that replaces or "
                                     f"removes it"))
         assigned_globals = set()
+        out_count = {}
         stored = set()          # values put into a container by this path
         marker = SKIP_PATH_MARKERS.get(self.fname)
         if marker and any(it[0] == "call" and marker[0] in " ".join(it[2])
@@ -296,6 +298,29 @@ class Own:
             for a in args:
                 if a.startswith("&") and a[1:] in self.facts.globals:
                     assigned_globals.add(a[1:])
+            # `&local` out-parameters: csym names the value the call left in
+            # the local `out<k>(<local>)`, k counting the writes so far
+            for i, a in enumerate(args):
+                if not a.startswith("&"):
+                    continue
+                m = re.fullmatch(r"&(?:out\d+\()?([A-Za-z_]\w*)\)?", a)
+                if not m or m.group(1) in self.facts.globals \
+                        or m.group(1).startswith("_Py_"):
+                    continue
+                v = m.group(1)
+                out_count[v] = out_count.get(v, 0) + 1
+                newv = f"out{out_count[v]}({v})"
+                spec = API.get(c)
+                if spec and i in spec.get("inout", ()):
+                    oldv = a[1:]
+                    if (oldv in origin) and oldv not in null:
+                        owned[oldv] -= 1      # consumed by the call
+                    if oldv in null:
+                        null.add(newv)
+                if spec and (i in spec.get("outs_new", ())
+                             or i in spec.get("inout", ())):
+                    if track(newv, "new") and newv not in null:
+                        owned[newv] += 1
             if c in API and API[c]["steals"]:
                 for i in API[c]["steals"]:
                     if i < len(args):
@@ -765,3 +790,54 @@ def field_overwrite(ctx, res):
                           [f"{CREL}:{l}" for l in dict.fromkeys(p.lines) if l])
     flush_paths(ctx)
     res.floor(8)
+
+
+# ---------------------------------------------------------------------------
+# C18.set-item-fresh: PyTuple_SET_ITEM / PyList_SET_ITEM write a slot without
+# releasing what it held and without any check: they are only legal on a
+# container this function has just created with Py{Tuple,List}_New and not
+# yet published.  Anything else (a slice or copy that may be the argument
+# itself, a parameter, a field) mutates a shared, possibly hashed object and
+# leaks the replaced items.
+
+@rule("C18.set-item-fresh", ["C18", "C01"],
+      "PyTuple_SET_ITEM / PyList_SET_ITEM only fill containers created by "
+      "Py{Tuple,List}_New on the same path (never an argument, a slice or a "
+      "copy, whose slots are occupied and which may be the caller's object)")
+def set_item_fresh(ctx, res):
+    from ..csym import cached_paths
+    facts = get_cfacts(ctx)
+    MAKERS = {"PyTuple_SET_ITEM": "PyTuple_New(",
+              "PyList_SET_ITEM": "PyList_New("}
+    n = 0
+    for fname in facts.defined_functions():
+        if not any(x.kind == "CallExpr" and callee(x) in MAKERS
+                   for x in facts.func(fname).walk()):
+            continue
+        paths = cached_paths(ctx, facts, fname)
+        if paths is None:
+            raise AnalysisError(f"{fname}: too many paths")
+        sites = {}
+        for p in paths:
+            for it in p.trace:
+                if it[0] == "call" and it[1] in MAKERS:
+                    tgt = it[2][0]
+                    ok = tgt.startswith(MAKERS[it[1]])
+                    cur = sites.get(it[4])
+                    if cur is None or (cur[0] and not ok):
+                        sites[it[4]] = (ok, it[1], tgt, p)
+        for line, (ok, c, tgt, p) in sorted(sites.items()):
+            n += 1
+            key = f"{fname}:{c}"
+            res.instance(key, f"{CREL}:{line}")
+            res.oblige(ok, f"{key}:{top_callee(tgt) or tgt[:30]}",
+                       f"{CREL}:{line}",
+                       f"{fname}: `{c}` fills `{tgt[:60]}`, which is not a "
+                       f"container newly created by {MAKERS[c]}...) on this "
+                       f"path: its slots are occupied (the old items leak) "
+                       f"and it may be the very object the caller passed "
+                       f"(an immutable tuple modified in place)",
+                       [f"{CREL}:{l}" for l in p.lines[-6:]])
+    from ..csym import flush_paths
+    flush_paths(ctx)
+    res.floor(6)
